@@ -115,4 +115,15 @@ theorem optimizeGenSP_eq_model (run : Nat) (pst : Persist) (r : RunSpec) :
   unfold optimizeGenSP C10.optimizeRef loopOrderGenSP
   rw [h, hp, he]
 
+/-! ### Goal.is_empty (goal_programming_mixin_base.py) -/
+
+/-- `Goal.is_empty`, read through the table of the translator -/
+def isEmptyGenC10 (g : Goal) : Bool :=
+  (if ((!(g.targetMin.isSeries || (anyFinite g.targetMin))) && (!(g.targetMax.isSeries || (anyFinite g.targetMax)))) then false else ((!(anyFinite g.targetMin)) && (!(allFinite g.targetMax))))
+
+theorem isEmptyGen_eq_model (g : Goal) : isEmptyGenC10 g = C10.isEmpty g := by
+  unfold isEmptyGenC10 C10.isEmpty
+  cases g.targetMin.isSeries <;> cases g.targetMax.isSeries <;>
+    cases anyFinite g.targetMin <;> cases anyFinite g.targetMax <;> rfl
+
 end RtcVerif.Gen
